@@ -228,15 +228,22 @@ class FlatSet : private Compare {
     insert_return_type irt{end(), false, std::move(nh)};
     if (irt.node) {
       std::tie(irt.position, irt.inserted) = insert(std::move(*irt.node._optV));
-      irt.node._optV = std::nullopt;
+      if (irt.inserted) {
+        // otherwise the value has not been moved from: the node keeps owning it
+        irt.node._optV = std::nullopt;
+      }
     }
     return irt;
   }
 
   iterator insert(const_iterator hint, node_type &&nh) {
     if (nh) {
+      const size_type oldSize = size();
       iterator retIt = insert(hint, std::move(*nh._optV));
-      nh._optV = std::nullopt;
+      if (size() != oldSize) {
+        // otherwise the value has not been moved from: the node keeps owning it
+        nh._optV = std::nullopt;
+      }
       return retIt;
     }
     return end();
